@@ -61,6 +61,7 @@ type FuncSpec struct {
 	Uses     []string
 	Modifies []string
 	Nilable  map[string]bool
+	Flows    map[string][]string
 	Trusted  bool
 	Pure     bool
 	NoSafety bool // do not emit zero-annotation safety obligations
@@ -74,6 +75,7 @@ type LockSpec struct {
 	Inv       []*Clause
 	Guarantee []*Clause
 	Rely      []*Clause
+	Fresh     []*Clause
 }
 
 type TypeSpec struct {
@@ -119,7 +121,7 @@ var clauseKeywords = map[string]bool{
 	"props": true, "trusted": true, "pure": true, "requires": true, "ensures": true,
 	"modifies": true, "ghost": true, "use": true, "on": true, "after": true, "before": true,
 	"loop": true, "invariant": true, "decreases": true, "nonnil": true, "lock": true,
-	"lockinv": true, "guarantee": true, "rely": true, "nilable": true, "nosafety": true, "using": true,
+	"lockinv": true, "guarantee": true, "rely": true, "fresh": true, "exit": true, "flows": true, "nilable": true, "nosafety": true, "using": true,
 }
 
 type rawClause struct {
@@ -176,8 +178,8 @@ func readClauses(path string, requirePrefix bool) ([]rawClause, error) {
 var (
 	reProps     = regexp.MustCompile(`^\{([A-Za-z0-9_, ]+)\}\s*`)
 	reLabel     = regexp.MustCompile(`^([A-Za-z_][A-Za-z0-9_.]*):\s*`)
-	reFuncHead  = regexp.MustCompile(`^([A-Za-z_][A-Za-z0-9_.#/*()]*)\s*\(([^)]*)\)\s*(?:\(([^)]*)\))?\s*$`)
-	reOnCall    = regexp.MustCompile(`^(call|send|recv)\s+([^\s(]+)\s*\(([^)]*)\)\s*(?:\(([^)]*)\))?\s*:\s*(.*)$`)
+	reFuncHead  = regexp.MustCompile(`^([A-Za-z_][A-Za-z0-9_.#/<>]*)\s*\(([^)]*)\)\s*(?:\(([^)]*)\))?\s*$`)
+	reOnCall    = regexp.MustCompile(`^(call|enter|send|recv|assign|go|close)\s+([^\s(]+)\s*\(([^)]*)\)\s*(?:\(([^)]*)\))?\s*:\s*(.*)$`)
 	reAnchor    = regexp.MustCompile(`^"((?:[^"\\]|\\.)*)"\s*:\s*(.*)$`)
 	reSpecHead  = regexp.MustCompile(`^([A-Za-z_][A-Za-z0-9_]*)\s*\(([^)]*)\)\s*(\S+)\s*=\s*(.*)$`)
 	reLemmaHead = regexp.MustCompile(`^([A-Za-z_][A-Za-z0-9_]*)\s*(?:\(([^)]*)\))?\s*:\s*(.*)$`)
@@ -321,6 +323,18 @@ func parseContractFile(path string, requirePrefix bool) (*ContractFile, error) {
 				return nil, errf(rc, "modifies outside func")
 			}
 			curF.Modifies = append(curF.Modifies, splitNames(rc.rest)...)
+		case "flows":
+			if curF == nil {
+				return nil, errf(rc, "flows outside func")
+			}
+			f := strings.SplitN(rc.rest, ":", 2)
+			if len(f) != 2 {
+				return nil, errf(rc, "expected: flows NAME: callee, callee")
+			}
+			if curF.Flows == nil {
+				curF.Flows = map[string][]string{}
+			}
+			curF.Flows[strings.TrimSpace(f[0])] = splitNames(f[1])
 		case "nilable":
 			if curF == nil {
 				return nil, errf(rc, "nilable outside func")
@@ -370,9 +384,27 @@ func parseContractFile(path string, requirePrefix bool) (*ContractFile, error) {
 			}
 			name := strings.TrimSpace(f[0])
 			curT.Locks[name] = &LockSpec{Field: name, Protects: splitNames(f[1])}
-		case "lockinv", "guarantee", "rely":
+		case "exit":
+			if curF == nil {
+				return nil, errf(rc, "exit outside func")
+			}
+			rest := rc.rest
+			var props []string
+			if m := reProps.FindStringSubmatch(rest); m != nil {
+				props = splitNames(m[1])
+				rest = rest[len(m[0]):]
+			}
+			rest = strings.TrimSpace(strings.TrimPrefix(strings.TrimSpace(rest), ":"))
+			curF.Hooks = append(curF.Hooks, &Hook{Kind: "exit", Target: "", Body: rest, Props: props, File: path, Line: rc.line})
+			curL = nil
+		case "lockinv", "guarantee", "rely", "fresh":
 			if curT == nil {
 				return nil, errf(rc, "%s outside type", rc.kw)
+			}
+			var lprops []string
+			if m := reProps.FindStringSubmatch(rc.rest); m != nil {
+				lprops = splitNames(m[1])
+				rc.rest = rc.rest[len(m[0]):]
 			}
 			f := strings.SplitN(rc.rest, " ", 2)
 			if len(f) != 2 {
@@ -383,7 +415,12 @@ func parseContractFile(path string, requirePrefix bool) (*ContractFile, error) {
 				return nil, errf(rc, "unknown lock %q", f[0])
 			}
 			c := parseClause(rc.kw, f[1], path, rc.line)
+			if len(lprops) > 0 {
+				c.Props = lprops
+			}
 			switch rc.kw {
+			case "fresh":
+				ls.Fresh = append(ls.Fresh, c)
 			case "lockinv":
 				ls.Inv = append(ls.Inv, c)
 			case "guarantee":
